@@ -150,6 +150,15 @@ def twins(g, rng):
         fam.append(({'a': {'oneof': [{'type': 'integer'}, copy.deepcopy(rs)]}}, 'context-twin'))
         fam.append(({'a': copy.deepcopy(rs)}, 'context-twin'))
         fam.append(({'turing': copy.deepcopy(rs)}, 'context-twin'))
+    # a mapping that is a valid `schema` constraint (field -> rules) and, as a rules set, is not: field names are no rules
+    for sub in ({'name': {'type': 'string'}}, {'x': {'type': 'integer'}, 'y': {'type': 'integer'}}):
+        fam.append(({'a': {'type': 'dict', 'schema': copy.deepcopy(sub)}}, 'context-twin-schema'))
+        fam.append(({'a': {'type': 'list', 'schema': {'type': 'dict', 'schema': copy.deepcopy(sub)}}}, 'context-twin-schema'))
+        fam.append(({'a': {'type': 'dict', 'valuesrules': copy.deepcopy(sub)}}, 'context-twin-schema'))
+        fam.append(({'a': {'type': 'dict', 'keysrules': copy.deepcopy(sub)}}, 'context-twin-schema'))
+        fam.append(({'a': {'type': 'list', 'items': [copy.deepcopy(sub)]}}, 'context-twin-schema'))
+        fam.append(({'a': {'anyof': [copy.deepcopy(sub)]}}, 'context-twin-schema'))
+        fam.append(({'a': {'type': 'dict', 'allow_unknown': copy.deepcopy(sub)}}, 'context-twin-schema'))
     # a corrupted definition after a valid one that may already be cached
     for op in ('anyof', 'allof', 'noneof', 'oneof'):
         for good in ({'type': 'integer'}, {'min': 1, 'max': 2}):
@@ -256,6 +265,13 @@ def run(ctx):
                     continue
                 check([(cname, "constructor", a[0], doc, a[1]), (cname, "constructor", b[0], doc, b[1])])
                 dist["type_twin_pairs"] += 1
+    # systematically: every ordered pair of the schema-vs-rules-set twins
+    cts = [p for p in pool_schemas if p[1] == 'context-twin-schema']
+    for a in cts:
+        for b in cts:
+            if a is not b:
+                check([("Validator", "constructor", a[0], doc, a[1]), ("Validator", "constructor", b[0], doc, b[1])])
+                dist["schema_twin_pairs"] += 1
     # systematically: a schema only a subclass accepts, submitted by that subclass first and by every other class afterwards
     so = [p for p in pool_schemas if p[1] == 'subclass-only']
     for sch, tag in so:
